@@ -22,18 +22,34 @@ pub broadcast axiom fn max_usize(a: usize, b: usize)
 pub assume_specification<T: std::cmp::Ord> [std::cmp::max] (a: T, b: T) -> (r: T)
     ensures r == max_spec(a, b);
 
-// ASSUMED contract of FileGroup::subgroup_count = FileSubGroup::group(..).len() (assumption A6): an uninterpreted
-// replica count. What is proved below is how the reporting decisions depend on that count.
-pub uninterp spec fn spec_subgroup_count<F>(g: &FileGroup<F>, filter: &FileGroupFilter) -> nat;
+// ASSUMED (A6): the number of sub-groups FileSubGroup::group builds (roots first, then file ids; IndexMap based) is an
+// uninterpreted function of (files, roots, group_by_id). What is proved below is that subgroup_count is exactly that number
+// for the group's files and the filter's roots / link handling, and how the reporting decisions depend on it.
+pub uninterp spec fn spec_group_len<I>(files: I, roots: Seq<Path>, group_by_id: bool) -> nat;
+// the one documented special case (so that a correct fast path is not an alarm): without isolated roots and with
+// --match-links every path is a replica of its own
+pub uninterp spec fn spec_iter_count<I>(files: I) -> nat;
+pub broadcast axiom fn iter_count_of_vec_ref<F>(v: &Vec<F>)
+    ensures #[trigger] spec_iter_count::<&Vec<F>>(v) == v@.len();
+pub broadcast axiom fn group_len_without_roots_and_ids<I>(files: I, roots: Seq<Path>, group_by_id: bool)
+    requires roots.len() == 0 && !group_by_id,
+    ensures #[trigger] spec_group_len::<I>(files, roots, group_by_id) == spec_iter_count::<I>(files);
+pub open spec fn spec_subgroup_count<F>(g: &FileGroup<F>, filter: &FileGroupFilter) -> nat {
+    spec_group_len(&g.files, filter.root_paths@, filter.group_by_id)
+}
 '''
 
-IMPL_HEAD = r'''
-impl<F> FileGroup<F> {
-    #[verifier::external_body]
-    fn subgroup_count(&self, filter: &FileGroupFilter) -> (r: usize)
-        ensures r as nat == spec_subgroup_count(self, filter)
-    { unimplemented!() }
+GROUP_STUB = r'''
 
+impl<F> FileSubGroup<F> {
+    // assumed contract of FileSubGroup::group (signature: `files: impl IntoIterator<Item = F>` written as a type parameter)
+    #[verifier::external_body]
+    pub fn group<I: IntoIterator<Item = F>>(files: I, roots: &[Path], group_by_id: bool) -> (r: Vec<FileSubGroup<F>>)
+        ensures r@.len() == spec_group_len(files, roots@, group_by_id)
+    { unimplemented!() }
+}
+
+impl<F> FileGroup<F> {
 '''
 
 
@@ -47,7 +63,17 @@ def build():
     ub.piece(Piece(src.item("pub enum Replication {"), **drop))
     ub.spec("\n")
     ub.piece(Piece(src.item("pub struct FileGroupFilter {"), **drop))
-    ub.spec(IMPL_HEAD)
+    ub.spec("\n\n")
+    ub.piece(Piece(src.item("pub struct FileSubGroup<F> {"), **drop))
+    ub.spec(GROUP_STUB)
+    impl0 = "impl<F: AsRef<Path> + AsRef<FileId>> FileGroup<F> {"
+    p = ub.piece(Piece(src.fn_in(impl0, "fn subgroup_count(&self, filter: &FileGroupFilter) -> usize {")))
+    p.after("fn subgroup_count(&self, filter: &FileGroupFilter) -> ", "(r: ")
+    p.after("fn subgroup_count(&self, filter: &FileGroupFilter) -> usize", ''')
+        ensures r as nat == spec_subgroup_count(self, filter) // @ob C06.subgroup_count.counts_the_sub_groups_of_all_files_under_the_filters_roots_and_link_handling
+   ''')
+    p.after("fn subgroup_count(&self, filter: &FileGroupFilter) -> usize {", "\n        broadcast use iter_count_of_vec_ref, group_len_without_roots_and_ids;")
+    ub.spec("\n\n")
     p = ub.piece(Piece(src.fn_in("impl<F> FileGroup<F> {", "pub fn file_count(&self) -> usize {")))
     p.after("pub fn file_count(&self) -> ", "(r: ")
     p.after("pub fn file_count(&self) -> usize", ")\n        ensures r == self.files@.len(),\n   ")
@@ -129,12 +155,12 @@ pub open spec fn filter_holds<F>(g: &FileGroup<F>, filter: &FileGroupFilter) -> 
 } // verus!
 fn main() {}
 ''')
-    ub.functions = ["group::group_by_contents [slice: post-filter]", "group::group_transformed [slice: post-filter]",
+    ub.functions = ["group::FileGroup::subgroup_count", "group::group_by_contents [slice: post-filter]", "group::group_transformed [slice: post-filter]",
                     "group::group_by_prefix [slice: post-filter]", "group::group_by_suffix [slice: post-filter]",
                     "group::FileGroup::matches", "group::FileGroup::matches_strictly", "group::FileGroup::missing_count",
                     "group::FileGroup::file_count", "group::FileGroup::redundant_count [slice: fast path]"]
     ub.assumptions = [
-        "FileGroup::subgroup_count (= FileSubGroup::group(..).len(), IndexMap based) is an uninterpreted replica count (A6)",
+        "FileSubGroup::group (IndexMap based) is an external function whose result length is an uninterpreted function of (files, roots, group_by_id) (A6); subgroup_count's own body is verified against it",
         "impl header trait bounds `F: AsRef<Path> + AsRef<FileId>` are not extracted (the three kernels do not use them)",
         "Path / FileId / FileHash are opaque; FileLen is re-declared as a tuple struct over u64",
         "std::cmp::max on usize is the mathematical max",
